@@ -5,6 +5,18 @@ import Mathlib.MeasureTheory.Integral.Bochner.Set
 import Mathlib.MeasureTheory.Measure.Lebesgue.Basic
 /-
   C06 — resampling returns exactly n valid indices and is unbiased.
+  Theorems are about `Model.Resample` (the code as it is now: half-open cells `[C_{j-1}, C_j)`, index capped at the
+  last one).  Structure (length / range / monotone) is proved for EVERY scalar type, hence also for the `Float`
+  instance the correspondence executes; everything else at `ℝ`.
+
+    systematic  : C06_syst_length, C06_syst_range, C06_syst_monotone            (no assumption on weights or sum)
+                  C06_syst_spec  (index = least j with position < C_j, capped)    (any weights, any sum)
+                  C06_syst_count_closed_form, C06_syst_floor_ceil                 (w ≥ 0, Σw = 1, every u0 ∈ [0,1))
+                  C06_syst_floor_ceil_renormalised                                (|Σw − 1| > 2^-26: law for w/Σw)
+                  C06_syst_count_below_last, C06_syst_floor_ceil_deficit          (tolerance band: indices below the last)
+                  C06_syst_floor_ceil_needs_exact_sum                             (the band cannot be covered in full: witness)
+                  C06_syst_indicator, C06_syst_unbiased_algebraic, C06_syst_unbiased_integral
+    multinomial : C06_mult_length, C06_mult_range, C06_mult_cell, C06_mult_cell_length, C06_mult_unbiased_integral
 -/
 namespace Props.C06
 open Model.Resample MeasureTheory
@@ -249,7 +261,7 @@ theorem countP_range_Ico (A B : ℤ) (hA : 0 ≤ A) (hAB : A ≤ B) (n : ℕ) :
     · simp [h]; omega
     · simp [h]; omega
 
-theorem count_of_forall₂ (q : ℕ → Prop) [DecidablePred q] (j : ℕ) (is rs : List ℕ)
+theorem count_of_forall2 (q : ℕ → Prop) [DecidablePred q] (j : ℕ) (is rs : List ℕ)
     (h : List.Forall₂ (fun i r => (r = j ↔ q i)) is rs) :
     rs.count j = is.countP (fun i => decide (q i)) := by
   induction h with
@@ -262,7 +274,7 @@ theorem count_of_forall₂ (q : ℕ → Prop) [DecidablePred q] (j : ℕ) (is rs
     · have : ¬ b = j := fun e => hq (hab.mp e)
       simp [hq, this]
 
-theorem forall₂_mem {β γ : Type} {R : β → γ → Prop} {l1 : List β} {l2 : List γ}
+theorem forall2_mem {β γ : Type} {R : β → γ → Prop} {l1 : List β} {l2 : List γ}
     (h : List.Forall₂ R l1 l2) : List.Forall₂ (fun a b => a ∈ l1 ∧ R a b) l1 l2 := by
   induction h with
   | nil => exact .nil
@@ -334,7 +346,7 @@ theorem count_core (v : List ℝ) (hne : v ≠ []) (hv : ∀ x ∈ v, 0 ≤ x) (
     (idx.count j : ℤ) = min ⌈n * P v (j + 1) - u0⌉ (n : ℤ) - min ⌈n * P v j - u0⌉ (n : ℤ) := by
   classical
   have hnpos : (0 : ℝ) < n := by exact_mod_cast hn
-  have hF' := (forall₂_mem hF).imp (S := fun (i : ℕ) r =>
+  have hF' := (forall2_mem hF).imp (S := fun (i : ℕ) r =>
       (r = j ↔ (P v j ≤ (u0 + i) / n ∧ (u0 + i) / n < P v (j + 1)))) (by
     intro i r ⟨hi, hc⟩
     have hi' : i < n := List.mem_range.mp hi
@@ -345,7 +357,7 @@ theorem count_core (v : List ℝ) (hne : v ≠ []) (hv : ∀ x ∈ v, 0 ≤ x) (
     rcases hlast with h | h
     · exact Or.inl h
     · exact Or.inr (lt_of_lt_of_le hp1 h))
-  rw [count_of_forall₂ _ j _ _ hF']
+  rw [count_of_forall2 _ j _ _ hF']
   have hmono : P v j ≤ P v (j + 1) := P_mono v hv (Nat.le_succ j)
   have hPj := P_nonneg v hv j
   have hA : 0 ≤ ⌈n * P v j - u0⌉ := by
@@ -641,7 +653,7 @@ theorem C06_mult_length {α : Type} [Sc α] (w us : List α) (idx : List ℕ)
   | none => rw [hc] at h; cases h
   | some cdf => rw [hc] at h; simp at h; subst h; simp
 
-theorem cumsumFrom_getElem? (acc : ℝ) (xs : List ℝ) (k : ℕ) (hk : k < xs.length) :
+theorem cumsumFrom_getElem_some (acc : ℝ) (xs : List ℝ) (k : ℕ) (hk : k < xs.length) :
     (cumsumFrom acc xs)[k]? = some (acc + (xs.take (k + 1)).sum) := by
   induction xs generalizing acc k with
   | nil => simp at hk
@@ -653,7 +665,7 @@ theorem cumsumFrom_getElem? (acc : ℝ) (xs : List ℝ) (k : ℕ) (hk : k < xs.l
       rw [ih _ k (by simpa using hk)]
       simp [add_assoc]
 
-theorem cumsum_getElem? (w : List ℝ) (k : ℕ) (hk : k < w.length) :
+theorem cumsum_getElem_some (w : List ℝ) (k : ℕ) (hk : k < w.length) :
     (cumsum w)[k]? = some (P w (k + 1)) := by
   cases w with
   | nil => simp at hk
@@ -662,14 +674,14 @@ theorem cumsum_getElem? (w : List ℝ) (k : ℕ) (hk : k < w.length) :
     | zero => simp [cumsum, P]
     | succ k =>
       simp only [cumsum, List.getElem?_cons_succ]
-      rw [cumsumFrom_getElem? _ _ k (by simpa using hk)]
+      rw [cumsumFrom_getElem_some _ _ k (by simpa using hk)]
       simp [P]
 
 theorem cumsum_eq (w : List ℝ) : cumsum w = (List.range w.length).map (fun k => P w (k + 1)) := by
   apply List.ext_getElem?
   intro k
   by_cases hk : k < w.length
-  · rw [cumsum_getElem? w k hk]; simp [hk]
+  · rw [cumsum_getElem_some w k hk]; simp [hk]
   · have h1 : (cumsum w).length ≤ k := by rw [cumsum_length]; omega
     rw [List.getElem?_eq_none h1, List.getElem?_eq_none (by simp; omega)]
 
@@ -678,7 +690,7 @@ theorem normCdf_real (w : List ℝ) (hne : w ≠ []) :
     normCdf w = some ((List.range w.length).map (fun k => P w (k + 1) / w.sum)) := by
   have hlen : 0 < w.length := List.length_pos_iff.mpr hne
   have hlast : (cumsum w).getLast? = some w.sum := by
-    rw [List.getLast?_eq_getElem?, cumsum_length, cumsum_getElem? w (w.length - 1) (by omega),
+    rw [List.getLast?_eq_getElem?, cumsum_length, cumsum_getElem_some w (w.length - 1) (by omega),
       Nat.sub_add_cancel hlen, P_length]
   unfold normCdf
   simp only [hlast]
@@ -804,6 +816,39 @@ theorem C06_mult_cell_length (w : List ℝ) (i : ℕ) (hi : i < w.length) :
     P w (i + 1) / w.sum - P w i / w.sum = w[i] / w.sum := by
   rw [P_succ w i hi]; ring
 
+/-- **unbiasedness of the multinomial scheme**: one uniform draw yields index `i` with probability `w_i/Σw`
+    (Lebesgue measure of its cell), so `n` independent draws give `n·w_i/Σw` expected copies -/
+theorem C06_mult_unbiased_integral (w : List ℝ) (hw0 : ∀ x ∈ w, 0 ≤ x) (hpos : 0 < w.sum)
+    (i : ℕ) (hi : i < w.length) :
+    ∫ u in Set.Ico (0:ℝ) 1, (if multinomial w [u] = some [i] then (1:ℝ) else 0) = w[i] / w.sum := by
+  have hne : w ≠ [] := by rintro rfl; simp at hi
+  have hlo : 0 ≤ P w i / w.sum := div_nonneg (P_nonneg w hw0 i) hpos.le
+  have hhi : P w (i + 1) / w.sum ≤ 1 := by
+    rw [div_le_one hpos]; exact P_le_sum w hw0 _
+  have hle : P w i / w.sum ≤ P w (i + 1) / w.sum :=
+    div_le_div_of_nonneg_right (P_mono w hw0 (Nat.le_succ i)) hpos.le
+  have hcongr : Set.EqOn (fun u : ℝ => if multinomial w [u] = some [i] then (1:ℝ) else 0)
+      ((Set.Ico (P w i / w.sum) (P w (i + 1) / w.sum)).indicator (fun _ => (1:ℝ))) (Set.Ico (0:ℝ) 1) := by
+    intro u hu
+    have hm : multinomial w [u] = some [searchsortedRight
+        ((List.range w.length).map (fun k => P w (k + 1) / w.sum)) u] := by
+      unfold multinomial; rw [normCdf_real w hne]; simp
+    have hcell := mult_index_cell w hw0 hpos u hu.1 i hi
+    simp only [hm, Set.indicator, Set.mem_Ico]
+    by_cases hc : P w i / w.sum ≤ u ∧ u < P w (i + 1) / w.sum
+    · have := hcell.mpr hc
+      simp [this, hc]
+    · have : ¬ searchsortedRight ((List.range w.length).map (fun k => P w (k + 1) / w.sum)) u = i :=
+        fun e => hc (hcell.mp e)
+      simp [this, hc]
+  rw [setIntegral_congr_fun measurableSet_Ico hcongr, setIntegral_indicator measurableSet_Ico]
+  have : Set.Ico (0:ℝ) 1 ∩ Set.Ico (P w i / w.sum) (P w (i + 1) / w.sum)
+      = Set.Ico (P w i / w.sum) (P w (i + 1) / w.sum) := by
+    ext x; simp only [Set.mem_inter_iff, Set.mem_Ico]; constructor
+    · rintro ⟨_, h⟩; exact h
+    · rintro ⟨h1, h2⟩; exact ⟨⟨le_trans hlo h1, lt_of_lt_of_le h2 hhi⟩, h1, h2⟩
+  rw [this, setIntegral_const, Real.volume_real_Ico_of_le hle, ← C06_mult_cell_length w i hi]; simp
+
 /-! ### non-vacuity: the hypotheses are met by concrete inputs, and the model computes what the code does -/
 
 /-- the docstring-sized example: `n = 4`, `w = [1/2, 1/4, 1/4]`, `u0 = 1/2` gives `[0, 0, 1, 2]` -/
@@ -870,5 +915,16 @@ theorem C06_syst_floor_ceil_needs_exact_sum :
 example : multinomial ([1/2, 1/4, 1/4] : List ℝ) [0, 1/2, 3/4, 7/8, 1/3] = some [0, 1, 2, 2, 0] := by
   simp [multinomial, normCdf, cumsum, cumsumFrom, searchsortedRight, List.countP_cons]
   norm_num
+
+example : ∫ u in Set.Ico (0:ℝ) 1, copies 4 ([1/2, 1/4, 1/4] : List ℝ) 0 u = ((4:ℕ):ℝ) * (1/2) := by
+  have := C06_syst_unbiased_integral 4 [1/2, 1/4, 1/4] (by norm_num)
+    (by intro x hx; simp at hx; rcases hx with rfl | rfl | rfl <;> norm_num) (by norm_num) 0 (by simp)
+  simpa using this
+
+example : ∫ u in Set.Ico (0:ℝ) 1, (if multinomial ([1/2, 1/4, 1/4] : List ℝ) [u] = some [1] then (1:ℝ) else 0)
+    = (1/4) / (1/2 + (1/4 + (1/4 + 0))) := by
+  have := C06_mult_unbiased_integral [1/2, 1/4, 1/4]
+    (by intro x hx; simp at hx; rcases hx with rfl | rfl | rfl <;> norm_num) (by norm_num) 1 (by simp)
+  simpa using this
 
 end Props.C06
